@@ -48,3 +48,50 @@ def run(ctx, pid, N):
     bad = [i for i in C.parse_int_list(ev[0] if ev else "") if i > 0]
     ctx.oblige("correspondence:DimensionRenamer, %d random layouts (mapping, renamed dims, undone dims) vs Model/Pipe.v" % N, "correspondence", not bad,
                "disagreements on %r" % [descs[i - 1] for i in bad[:4]])
+
+
+def run_concat(ctx, pid, N):
+    """Concatenator round trips (1..13 items of 1..3 features, labels of each item its own) against Model/Concat.v"""
+    import xarray as xr
+    from xeofs.preprocessing.concatenator import Concatenator
+    rng = ctx.rng.child(pid + "concat").np
+    cases, descs = [], []
+    for i in range(N):
+        n_items = int(rng.integers(1, 14))
+        items = []
+        for j in range(n_items):
+            w = int(rng.integers(1, 4))
+            labels = (rng.permutation(50)[:w] + 100 * j).astype(int)
+            vals = (np.arange(w) + 10 * j + 1000 * i).astype(float)
+            items.append(xr.DataArray(vals[None, :], dims=("sample", "feature"), coords={"sample": [0], "feature": labels}))
+        ctx.case(("concat", i, n_items), nontrivial=n_items >= 2, tag="Concatenator/%s items" % ("1-10" if n_items <= 10 else "11-13"))
+        c = Concatenator()
+        try:
+            J = c.fit_transform(items)
+            joined = [int(v) for v in J.values[0]]
+        except Exception as e:
+            ctx.violation("%s:Concatenator:error:%s" % (pid, C.errkind(e)), "Concatenator.fit_transform raised %r on %d items" % (e, n_items), dict(kind="concat", n_items=n_items))
+            continue
+        try:
+            back = c.inverse_transform_data(J)
+            back_c = "Some [%s]" % "; ".join("[%s]" % "; ".join("(%d, %d)%%Z" % (int(l), int(v)) for l, v in zip(b.feature.values, b.values[0])) for b in back)
+            ok = len(back) == n_items and all(list(b.feature.values) == list(a.feature.values) and np.array_equal(b.values, a.values) for a, b in zip(items, back))
+        except Exception:
+            back_c, ok = "None", False
+        if not ok:
+            ctx.violation("%s:Concatenator:roundtrip" % pid, "Concatenator: cutting the joined array of %d items back does not return the items with their own labels" % n_items,
+                          dict(kind="concat", n_items=n_items, labels=[list(map(int, a.feature.values)) for a in items]))
+        its = "[%s]" % "; ".join("[%s]" % "; ".join("(%d, %d)%%Z" % (int(l), int(v)) for l, v in zip(a.feature.values, a.values[0])) for a in items)
+        cases.append("(%s, [%s]%%Z, %s)" % (its, "; ".join(str(v) for v in joined), back_c))
+        descs.append("%d items" % n_items)
+    body = [C.COQ_HEADER, "From XV Require Import Model.Concat Model.ConcatCase Gen.T7pipe.\n", "Definition cases : list concat_case := [",
+            ";\n".join("  " + c for c in cases), "].\nEval vm_compute in (0%Z :: concat_mismatches concat_rule cases).\n"]
+    f = C.write_case_file(pid, "concat", "\n".join(body))
+    rc, out = C.coqc_run(f)
+    if rc != 0:
+        ctx.oblige("correspondence:Concatenator vs Model/Concat.v", "correspondence", False, out[-600:])
+        return
+    ev = C.parse_evals(out)
+    bad = [i for i in C.parse_int_list(ev[0] if ev else "") if i > 0]
+    ctx.oblige("correspondence:Concatenator, %d lists of 1..13 items (joined values, items cut back) vs Model/Concat.v" % N, "correspondence", not bad,
+               "disagreements on %r" % [descs[i - 1] for i in bad[:4]])
